@@ -267,9 +267,10 @@ Definition restrict_root (c : config) (s : fs) : fs := filter (fun kv => under (
 (* the package directories as the property means them: one real directory per dotted component *)
 Definition spec_out (c : config) : path := root c ++ out_pkg c.
 Definition spec_core (c : config) : path := root c ++ core_fqn c.
-(* ancestor package directories strictly between the root and the package directory *)
+(* the package directories on the way from the root down to the package directory (the last one,
+   the package directory itself, is redundant with [under] below and kept for uniformity) *)
 Definition ancestors (c : config) (pkg : list str) : list path :=
-  map (fun q => root c ++ q) (removelast (prefixes pkg)).
+  map (fun q => root c ++ q) (prefixes pkg).
 Definition allowed (c : config) (p : path) : bool :=
   under (spec_out c) p || under (spec_core c) p
   || existsb (fun a => path_eqb p a || path_eqb p (a ++ [s_init]))
